@@ -453,11 +453,6 @@ Qed.
 Theorem unix_impls_all_ansi : wa_unix_impls_all_ansi = true.
 Proof. vm_compute. reflexivity. Qed.
 
-(* the operation order the translator found is the one the model transcribes *)
-Theorem ops_order :
-  wa_ops = [(WaOpFg, true, true); (WaOpBg, true, true); (WaOpData, false, false); (WaOpReset, true, true)].
-Proof. reflexivity. Qed.
-
 (* ---- a concrete run --------------------------------------------------------- *)
 
 Theorem example_run :
